@@ -149,7 +149,7 @@ pub fn run(m: &mut M, r: &mut Rng, family: &str, n: u64) -> bool {
         "fmt" => fmt(m, r, n),
         #[cfg(feature = "serde")]
         "serde" => serde_family(m, r, n),
-        _ => return false,
+        _ => return crate::gen5::run(m, r, family, n),
     }
     true
 }
